@@ -396,6 +396,8 @@ type event struct {
 	gen   int
 	rAtEm specqbft.Round // receiver's round when the message was emitted (0 = not in an instance)
 	te    int64          // emission time of the carried message
+	// futureStamp: a proposal emitted by the known mechanism "justified for a future round, stamped with the current one"
+	futureStamp bool
 }
 
 type evHeap []*event
@@ -720,10 +722,34 @@ func (s *sim) onBroadcast(o *oper, m *spectypes.SSVMessage) {
 		s.fail = prog.Failf("C10:undecodable-broadcast", "operator %d broadcast a message that does not decode: %v", o.id, err)
 		return
 	}
-	s.push(&event{t: o.now, kind: evEmit, op: o, msg: dec})
+	s.push(&event{t: o.now, kind: evEmit, op: o, msg: dec, futureStamp: s.futureRoundStamp(o, dec)})
 }
 
-func (s *sim) emit(o *oper, dec *queue.DecodedSSVMessage, te int64) {
+// futureRoundStamp recognises, at the moment of the Broadcast call, the one known mechanism behind a 'signer is not
+// leader' reject of a correct operator's proposal (instance/round_change.go:60-70 + proposal.go:276): the instance
+// holds a quorum of round-changes for a round ABOVE its current one, this operator leads that round, and the
+// proposal it emits carries the instance's current round, which it does not lead.
+func (s *sim) futureRoundStamp(o *oper, dec *queue.DecodedSSVMessage) bool {
+	sm, ok := dec.Body.(*specqbft.SignedMessage)
+	if !ok || sm.Message.MsgType != specqbft.ProposalMsgType {
+		return false
+	}
+	inst := o.inst()
+	if inst == nil || inst.State == nil || sm.Message.Round != inst.State.Round {
+		return false
+	}
+	if specqbft.RoundRobinProposer(inst.State, sm.Message.Round) == o.id {
+		return false
+	}
+	for r := inst.State.Round + 1; r <= s.maxRound; r++ {
+		if specqbft.HasQuorum(inst.State.Share, inst.State.RoundChangeContainer.MessagesForRound(r)) && specqbft.RoundRobinProposer(inst.State, r) == o.id {
+			return true
+		}
+	}
+	return false
+}
+
+func (s *sim) emit(o *oper, dec *queue.DecodedSSVMessage, te int64, futureStamp bool) {
 	m := dec.SSVMessage
 	kind := msgKind(m, dec.Body)
 	var round specqbft.Round
@@ -777,7 +803,7 @@ func (s *sim) emit(o *oper, dec *queue.DecodedSSVMessage, te int64) {
 	} else if !isQ {
 		s.partialMsgs++
 	}
-	s.validate(o, m, dec, kind, round, te, seqNo)
+	s.validate(o, m, dec, kind, round, te, seqNo, futureStamp)
 	if isQ && len(sm.Signers) == 1 {
 		s.noteSent(o, round)
 	}
@@ -837,7 +863,7 @@ func (o *oper) inst() *instance.Instance {
 // validate is the correct peer: the message, wrapped like the p2p layer wraps it, goes through the real validator
 // at emission time + delta. Messages are validated in emission order (a linear extension of causality) and the
 // reception times are made monotone.
-func (s *sim) validate(o *oper, m *spectypes.SSVMessage, dec *queue.DecodedSSVMessage, kind string, round specqbft.Round, te int64, seqNo int) {
+func (s *sim) validate(o *oper, m *spectypes.SSVMessage, dec *queue.DecodedSSVMessage, kind string, round specqbft.Round, te int64, seqNo int, futureStamp bool) {
 	delta := int64(s.p.Deltas[seqNo%len(s.p.Deltas)])
 	recv := te + delta
 	if recv < s.lastRecv {
@@ -902,6 +928,10 @@ func (s *sim) validate(o *oper, m *spectypes.SSVMessage, dec *queue.DecodedSSVMe
 			// links and timers are timely, but some operator runs behind the others (late duty start; the proposer
 			// role's per-operator timers): separately listable
 			sig = "C10:reject-with-lagging-operator:" + slug(text) + ":" + kind
+		}
+		if text == validation.ErrSignerNotLeader.Text() && !futureStamp {
+			// only the recognised mechanism keeps the plain (listable) signature
+			sig += ":not-the-future-round-mechanism"
 		}
 		if prog.IsKnown(sig) {
 			prog.KnownHit(testName, sig)
@@ -1139,7 +1169,7 @@ func (s *sim) run() {
 				s.consume(o, e.t)
 			}
 		case evEmit:
-			s.emit(o, e.msg, e.t)
+			s.emit(o, e.msg, e.t, e.futureStamp)
 		}
 		// remember the highest round each operator has spoken in (after the event, i.e. in emission order)
 	}
@@ -1362,6 +1392,12 @@ func gen(t *rapid.T) Prog {
 	if role == spectypes.BNRoleAttester || role == spectypes.BNRoleSyncCommittee {
 		shapes = append(shapes, 6, 6)
 	}
+	// 7 = "late pre-consensus quorum" (slot-anchored roles with pre-consensus): fault-free; f+1 operators start inside
+	// one later round R, so the pre-consensus quorum completes then and EVERY instance starts with rounds 1..R-1 already
+	// expired: all operators catch up at once, their round-changes for several rounds interleave over jittery links
+	if role == spectypes.BNRoleAggregator || role == spectypes.BNRoleSyncCommitteeContribution {
+		shapes = append(shapes, 7, 7)
+	}
 	shape := rapid.SampledFrom(shapes).Draw(t, "shape")
 	if fs := os.Getenv("C10_FORCE_SHAPE"); fs != "" { // debugging aid: measure what one shape reaches
 		shape = int(fs[0] - '0')
@@ -1459,7 +1495,27 @@ func gen(t *rapid.T) Prog {
 			p.Faulty = append(p.Faulty, s)
 		}
 	}
-	if shape == 6 {
+	if shape == 7 {
+		R := rapid.IntRange(3, 6).Draw(t, "catchup_round")
+		late := rapid.SliceOfNDistinct(rapid.IntRange(0, p.N-1), f+1, f+1, rapid.ID[int]).Draw(t, "catchup_late")
+		p.LateRound = make([]int, p.N)
+		p.LateFrac = make([]int, p.N)
+		for _, i := range late {
+			p.LateRound[i] = R
+			p.LateFrac[i] = rapid.IntRange(0, 700).Draw(t, "catchup_frac")
+		}
+		if rapid.IntRange(0, 3).Draw(t, "catchup_slow_one") > 0 {
+			// one operator's beacon node is slower than the links: its instance starts when the others' round-changes
+			// are already queued, and it drains them before its own expired timers
+			slow := rapid.IntRange(0, p.N-1).Draw(t, "catchup_slow")
+			for i := 0; i < p.N; i++ {
+				p.BNMs[i] = rapid.IntRange(0, 60).Draw(t, "catchup_bn")
+				p.ExpiredTimerFirst[i] = rapid.IntRange(0, 3).Draw(t, "catchup_timer_first") > 0
+			}
+			p.BNMs[slow] = rapid.IntRange(250, 600).Draw(t, "catchup_slow_bn")
+			p.ExpiredTimerFirst[slow] = false
+		}
+	} else if shape == 6 {
 		// late starters are set
 	} else if shape == 1 || shape == 3 || shape == 4 {
 		// enough late starters that no (commit) quorum is present until the first of them arrives
@@ -1507,12 +1563,19 @@ func gen(t *rapid.T) Prog {
 	if shape == 6 {
 		inOrderPct = 70
 	}
+	if shape == 7 {
+		inOrderPct = 10
+	}
 	p.InOrder = rapid.IntRange(0, 99).Draw(t, "in_order") < inOrderPct
 	if p.InOrder {
 		p.DelayMs = rapid.IntRange(1, 300).Draw(t, "delay")
 		p.Deltas = []int{rapid.IntRange(0, 1500).Draw(t, "delta")}
 	} else {
-		hi := rapid.SampledFrom([]int{50, 200, 400, 900, 0, 0}).Draw(t, "delay_hi")
+		his := []int{50, 200, 400, 900, 0, 0}
+		if shape == 7 {
+			his = []int{30, 150, 150}
+		}
+		hi := rapid.SampledFrom(his).Draw(t, "delay_hi")
 		if hi == 0 {
 			// bimodal links: aggregated decided messages overtake the commits they were built from
 			p.Delays = rapid.SliceOfN(rapid.OneOf(rapid.IntRange(1, 15), rapid.IntRange(250, 700)), 8, 48).Draw(t, "delays2")
